@@ -130,14 +130,16 @@ def run(ctx):
     for i, c in enumerate(cases):
         if ctx.quick and c['id'] == 'T2' and (i + ctx.seed) % 12 != 0:
             continue
-        for delim in DELIMS if not ctx.quick else DELIMS[(i % 3):(i % 3) + 1]:
+        # (shared: equal object values are ONE instance referenced from several places - a DAG, which is not a cycle)
+        for delim, shared in [(dl, sh) for dl in (DELIMS if not ctx.quick else DELIMS[(i % 3):(i % 3) + 1]) for sh in ((False, True) if c['id'] == 'F3' else (False,))]:
             cfg = dict(delim=delim, idx='contig', order='asc', strict=False)
+            memo = {} if shared else None
             try:
                 w = world(c, cfg, None)
                 mcls = w.app.interface.service_method_map['{%s}%s' % (c['tns'], c['method'])][0].in_message
                 inst = mcls()
                 for f, v in zip(c['args'], c['vals']):
-                    setattr(inst, f['n'], S.to_instance(w.gen, f['t'], v))
+                    setattr(inst, f['n'], S.to_instance(w.gen, f['t'], v, memo=memo))
                 doc = w.inp.object_to_simple_dict(mcls, inst)
                 own = []
                 back_doc = {}
@@ -153,7 +155,7 @@ def run(ctx):
             except Exception as e:
                 obs = {'own': [['?', '%s: %s' % (type(e).__name__, e)]], 'back': [['leaf', '?raises'] for _ in c['args']]}
                 info = {'escape': '%s: %s' % (type(e).__name__, e)}
-            recs.append({'kind': 'o2d', 'c': c, 'cfg': cfg, 'validator': None, 'form': False, 'obs': obs, 'info': info})
+            recs.append({'kind': 'o2d', 'c': c, 'cfg': cfg, 'validator': None, 'form': False, 'obs': obs, 'info': dict(info, shared=shared)})
     # ---- primitive return values through an HttpRpc out protocol, with a declared out header
     for i, c in enumerate(d['retcases']):
         cfg = dict(delim='.', idx='contig', order='asc', strict=False)
